@@ -22,6 +22,7 @@ import (
 
 	"verifsim/core"
 	"verifsim/execsim"
+	"verifsim/ops"
 	"verifsim/parsers"
 	"verifsim/probereg"
 	"verifsim/refexec"
@@ -116,7 +117,7 @@ func judge(schema *ast.Schema, r Req) verdict {
 	if len(doc.Operations) == 0 {
 		return verdict{Reason: "no-operation"}
 	}
-	if errs := validator.Validate(schema, doc); len(errs) > 0 {
+	if errs := ops.Validate(schema, doc); len(errs) > 0 {
 		return verdict{Reason: "validation"}
 	}
 	op := doc.Operations.ForName(r.OpName)
@@ -194,7 +195,8 @@ func Run(rc *core.RunCtx) {
 		}
 	}
 	cacheKind := t.Choose(4, "cache") // 0 none, 1 sim cache, 2 sim cache parking, 3 lru
-	disableSuggestion := t.Bool(1, 3, "nosuggest")
+	// per process, not per run: disabling suggestions changes gqlparser's process-global rule list
+	disableSuggestion := core.ProcChoice(3) == 1
 	viaHTTP := t.Bool(1, 2, "http")
 	parkRes := t.Bool(2, 3, "parkres")
 	u.Park = parkRes
